@@ -43,7 +43,9 @@ def integral_data(ir: FormIR) -> IntegralData:
         names += [ir.integral_names[itg_type][i] for i in id_sort]
         domains += [ir.integral_domains[itg_type][i] for i in id_sort]
 
-        offsets.append(offsets[-1] + sum(len(d) for d in domains[offsets[-1] :]))
+        # One kernel per (integral, cell type): count the kernels of this type.
+        # Note that `domains` has one entry per integral, not per kernel.
+        offsets.append(offsets[-1] + sum(len(d) for d in ir.integral_domains[itg_type]))
 
     return IntegralData(names, ids, offsets, domains)
 
